@@ -18,11 +18,19 @@ import impl
 import lib
 from lib import coq_bool, coq_list, coq_nat, coq_string
 
-COQ_TARGETS = ["theories/Proofs/SlottedLemmas.vo", "theories/Proofs/SlottedStateLemmas.vo", "theories/Model/SlottedEq.vo"]
+COQ_TARGETS = ["theories/Proofs/SlottedLemmas.vo", "theories/Proofs/SlottedStateLemmas.vo", "theories/Proofs/SlottedInstLemmas.vo",
+               "theories/Model/SlottedEq.vo"]
 THEOREMS = ["C19_never_raises", "C19_stack_empty_after_success", "C19_stack_restored", "C19_slots_exact",
             "C19_slots_own_fields", "C19_chain", "C19_no_dict", "C19_weakref_iff", "C19_preserved", "C19_nothing_else",
             "C19_defaults", "C19_super_safe", "C19_setstate_restores", "C19_setstate_fieldless", "C19_refuted_zero_arg_super", "C19_full_is_false", "C19_refuted_weakref_base",
-            "C19_refuted_stack_leak", "C19_refuted_inherited_hooks"]
+            "C19_refuted_stack_leak", "C19_refuted_inherited_hooks",
+            # instance level (Model/SlottedInst.v)
+            "C19_construct", "C19_instance_dict", "C19_methods", "C19_frozen_fields", "C19_roundtrip",
+            "C19_roundtrip_user_hooks", "C19_roundtrip_user_law", "C19_copy_equal", "C19_construct_copy_equal",
+            "C19_chain_members",
+            "C19_refuted_shadowed_base_slot", "C19_refuted_post_init_needs_dict", "C19_refuted_leftover_default",
+            "C19_refuted_lone_getstate", "C19_refuted_fix_over_user_hooks", "C19_refuted_shadowing_classvar",
+            "C19_refuted_frozen_nonfield_setattr", "C19_refuted_lawless_hooks"]
 MOD_O, MOD_S, MOD_C = "verif_c19_orig", "verif_c19_slot", "verif_c19_corr"
 
 
@@ -62,9 +70,15 @@ def prove(run: lib.Run):
         "C19: type_new (Model/Slotted.v) is a contract for CPython's type.__new__ on Python-level single inheritance "
         "(slot/dict/weakref layout rules, slot vs class-variable conflict); it is tied by the correspondence "
         "(layout flags, exception kinds), not proved",
-        "C19: that the *same* method objects (dataclass-generated __init__/__eq__/__hash__/__repr__, user methods) behave "
-        "identically on slot storage is CPython descriptor semantics; exercised by the behavioural oracle only -> the "
-        "behavioural clauses (construct/compare/hash/repr/copy/pickle) are 'partial'",
+        "C19: the instance-level contract functions of Model/SlottedInst.v -- lookup/ogetattr/obj_setattr (type-level MRO "
+        "lookup; data descriptor > instance __dict__ > class attribute), construct/bind_args and dc_eq/dc_lt/dc_hash/dc_repr "
+        "(the code dataclasses generates, as functions of the field list each method closes over), regnames/getstate_default/"
+        "default_setstate/rebuild (copyreg._slotnames, object.__getstate__, copyreg.__newobj__ + BUILD for protocols 2-5) -- are "
+        "CPython behaviour written down, tied on every run by the correspondence layer 'instance' (storage, ==, <, hash, repr, "
+        "__reduce_ex__(4)[2], copy/deepcopy/pickle results on the real slotted classes), not proved",
+        "C19: opaque in the instance theorems: comparison of field values (vops), the transport of a value through deepcopy / "
+        "pickle (f), user __getstate__/__setstate__ (hooks; law hooks_restore is a hypothesis of C19_roundtrip_user_law), what "
+        "__post_init__ stores, default values and factories",
         "C19: getstate (Model/SlottedState.v) is a contract for CPython's default object.__getstate__ (state = dict part "
         "alone, or (dict part, slot values) when a slot holds a value; empty dict -> None); sampled against the interpreter "
         "on every run (correspondence layer 'getstate-law'), not proved",
@@ -377,8 +391,293 @@ def getstate_cases(rng, cls, k=2):
     return out
 
 
+# ----------------------------------------------------------------------------------
+# instance level: construction, ==, <, hash, repr, __reduce_ex__ state, copy / deepcopy / pickle
+# (the model side is Model/SlottedInst.v, evaluated by SlottedEq.icase_ok)
+# ----------------------------------------------------------------------------------
+
+class Enc:
+    """Python values -> model values.  An int in [0, 40) is its own code; everything else is identified by
+    (type, repr) and numbered from 40 per case, so equal values met on both sides get the same code.  Codes are
+    Coq nat literals, i.e. unary: they must stay small (the constructor arguments below are all < 40)."""
+
+    def __init__(self):
+        self.table = {}
+
+    def __call__(self, v):
+        if v is None:
+            return "ONone"
+        if type(v) is int and 0 <= v < 40:
+            return f"(OId {v})"
+        key = (type(v).__name__, repr(v)[:200])
+        if key not in self.table:
+            self.table[key] = 40 + len(self.table)
+        return f"(OId {self.table[key]})"
+
+    def store(self, d):
+        return coq_list(["(%s, %s)" % (coq_string(k), self(v)) for k, v in d.items()], "(attr * obj)")
+
+    def ostore(self, d):
+        return "None" if d is None else f"(Some {self.store(d)})"
+
+
+def _is_generated(v):
+    """a method written by dataclasses (exec of generated source)"""
+    v = getattr(v, "__wrapped__", v)          # __repr__ comes wrapped by reprlib.recursive_repr
+    return inspect.isfunction(v) and v.__code__.co_filename == "<string>"
+
+
+def _field_names(k):
+    return [f.name for f in dataclasses.fields(k)] if dataclasses.is_dataclass(k) else []
+
+
+def ukind_of(enc, owner, v):
+    if _is_generated(v):
+        return "(UGen %s)" % emit_strs(_field_names(owner))
+    if v is None:
+        return "(UValue ONone)"
+    if (inspect.isfunction(v) or isinstance(v, (classmethod, staticmethod, property, types.GetSetDescriptorType,
+                                                  types.MemberDescriptorType, type))
+            or hasattr(type(v), "__get__")):
+        return "UFunc"
+    return f"(UValue {enc(v)})"
+
+
+def ckind_of(enc, owner, v, n):
+    cl = _classes()
+    if isinstance(v, types.MemberDescriptorType):
+        return "CMember"
+    if isinstance(v, types.GetSetDescriptorType):
+        return "CGetSet"
+    if _is_generated(v):
+        return "(CGen %s)" % emit_strs(_field_names(owner))
+    if inspect.isfunction(v) and v.__name__ == "_slots_setstate" and v.__module__ == cl.__name__:
+        return "CFix"
+    if v is None:
+        return "(CValue ONone)"
+    if inspect.isfunction(v) or isinstance(v, (classmethod, staticmethod, property, type)) or hasattr(type(v), "__get__"):
+        return f"(CFunc {n})"
+    return f"(CValue {enc(v)})"
+
+
+def visible_slots(x):
+    """name -> value for every member descriptor that type-level lookup resolves the name to"""
+    out = {}
+    t = type(x)
+    for k in t.__mro__:
+        for name, v in vars(k).items():
+            if isinstance(v, types.MemberDescriptorType) and name not in out and inspect.getattr_static(t, name, None) is v:
+                try:
+                    out[name] = v.__get__(x, t)
+                except AttributeError:
+                    pass
+    return out
+
+
+def storage(x):
+    return visible_slots(x), (dict(vars(x)) if type(x).__dictoffset__ != 0 else None)
+
+
+def _exc_kind(e):
+    if isinstance(e, dataclasses.FrozenInstanceError):
+        return "SKFrozen"
+    if isinstance(e, AttributeError):
+        return "SKAttr"
+    if isinstance(e, TypeError):
+        return "SKType"
+    return "SKOther"
+
+
+def _owner(t, name):
+    for k in t.__mro__[:-1]:
+        if name in vars(k):
+            return k
+    return None
+
+
+def hook_format(prog, i):
+    """state format of the user hooks instances of class i use: (model hook format, decoder) or None when the
+    instance layer does not describe the combination (a lone __setstate__)"""
+    chain = [prog[j]["hooks"] for j in [i] + _ancestors(prog, i)]
+    kinds = [h for h in chain if h != "none"]
+    if not kinds:
+        return 0, None
+    first_get = next((h for h in chain if h in ("pair", "pairlist", "get")), None)
+    first_set = next((h for h in chain if h in ("pair", "pairlist", "set")), None)
+    if first_get in ("pair", "pairlist") and first_set == first_get:
+        return 0, first_get             # a user pair (own or inherited), one private format
+    if first_get == "get" and first_set is None:
+        return 1, first_get             # a lone __getstate__ that returns {field: value}
+    return None                         # mixed formats / a lone __setstate__: outside the instance model
+
+
+def decode_user_state(fmt, st, names):
+    if fmt == "pair":
+        return dict(st[1])
+    if fmt == "pairlist":
+        return dict(zip(names, st[1]))
+    return dict(st)
+
+
+def instance_case(prog, i, step, new, mod):
+    """reflect decorated class i for the instance layer; returns (description, Coq term) or None"""
+    orig = mod._plain.get(i)
+    if orig is None or not dataclasses.is_dataclass(orig) or "__slots__" in vars(orig) or type(orig) is not type:
+        return None
+    hf = hook_format(prog, i)
+    if hf is None:
+        return None
+    hookfmt, getfmt = hf
+    enc = Enc()
+    fields = dataclasses.fields(new)
+    names = [f.name for f in fields]
+    kinds = [ukind_of(enc, orig, v) for v in vars(orig).values()]
+    bases = []
+    for j, b in enumerate(orig.__mro__[1:-1]):
+        bases.append(coq_list(["(%s, %s)" % (coq_string(k), ckind_of(enc, b, v, n))
+                               for n, (k, v) in enumerate(vars(b).items())], "(attr * ckind)"))
+    defaults = {f.name: f.default for f in fields if f.default is not dataclasses.MISSING}
+    factories = {f.name: f.default_factory() for f in fields if f.default_factory is not dataclasses.MISSING}
+    post = {}
+    init_owner = _owner(orig, "__init__")
+    init_fn = vars(init_owner)["__init__"] if init_owner is not None else None
+    if _is_generated(init_fn) and "__post_init__" in init_fn.__code__.co_names and hasattr(orig, "__post_init__"):
+        # the generated __init__ calls __post_init__ only when the class had one when @dataclass ran
+        post = {"_derived": ["derived", len(fields)]}          # what the generated __post_init__ stores
+    req = [f for f in fields if f.default is dataclasses.MISSING and f.default_factory is dataclasses.MISSING]
+    calls = [([k + 1 for k in range(len(req))], {}),
+             ([], {f.name: 30 + k for k, f in enumerate(fields)}),
+             ([], {}),
+             ([k + 1 for k in range(len(fields) + 1)], {}),
+             ([k + 1 for k in range(len(req))], {"zz": 1})]
+    if fields:
+        calls.append(([7], {f.name: 20 + k for k, f in enumerate(fields[1:])}))
+        calls.append(([7], {fields[0].name: 8}))
+        calls.append(([k + 1 for k in range(len(req))], {}))       # a second, equal instance
+        if req:
+            calls.append(([k + 2 for k in range(len(req))], {}))   # and a different one
+    picklable = _resolve(mod, new.__qualname__) is new
+    x0 = None
+    ccalls, desc_calls = [], []
+    for pos, kw in calls:
+        try:
+            x = new(*pos, **kw)
+        except Exception as e:          # noqa: BLE001
+            obs = f"(CRaise {_exc_kind(e)})"
+            desc_calls.append({"pos": pos, "kw": kw, "raised": f"{type(e).__name__}: {e}"[:120]})
+        else:
+            if x0 is None:
+                x0 = x
+            sl, dc = storage(x)
+            d = {"pos": pos, "kw": kw, "slots": repr(sl), "dict": repr(dc)}
+            vals = [getattr(x, n, None) for n in names]
+            try:
+                eq = "(Some %s)" % coq_bool(bool(x == x0))
+            except Exception:          # noqa: BLE001
+                eq = "None"
+            lt = "None"
+            if all(type(v) is int for v in vals + [getattr(x0, n, None) for n in names]):
+                try:
+                    lt = "(Some (Some %s))" % coq_bool(bool(x < x0))
+                except TypeError:
+                    lt = "(Some None)"
+            hs = "None"
+            try:
+                h = hash(x)
+                if type(x).__hash__ is object.__hash__:
+                    hs = "(Some HIdentity)"
+                else:
+                    ow = _owner(type(x), "__hash__")
+                    hn = _field_names(ow) if ow is not None and _is_generated(vars(ow)["__hash__"]) else None
+                    if hn is not None and h == hash(tuple(getattr(x, n) for n in hn)):
+                        hs = "(Some (HTuple %s))" % coq_list([enc(getattr(x, n)) for n in hn], "obj")
+                    else:
+                        hs = "(Some HUnmodelled)"
+            except TypeError:
+                if all(type(v) is int for v in vals):
+                    hs = "(Some HRaise)"
+            rp = "RUnmodelled"
+            try:
+                r = repr(x)
+                ow = _owner(type(x), "__repr__")
+                if ow is None:
+                    rp = "RDefault" if r.startswith("<") and " object at 0x" in r else "RUnmodelled"
+                elif _is_generated(vars(ow)["__repr__"]):
+                    rn = _field_names(ow)
+                    if r == type(x).__qualname__ + "(" + ", ".join(f"{n}={getattr(x, n)!r}" for n in rn) + ")":
+                        rp = "(RGen %s %s)" % (coq_string(type(x).__qualname__),
+                                               coq_list(["(%s, %s)" % (coq_string(n), enc(getattr(x, n))) for n in rn], "(attr * obj)"))
+            except Exception:          # noqa: BLE001
+                rp = "RRaise"
+            d["repr"] = rp[:80]
+            d["hash"] = hs.replace("(Some ", "").replace("None", "not-observed")[:40]
+            state = "None"
+            try:
+                st = x.__reduce_ex__(4)[2]
+                if getfmt is None:
+                    state = "(Some (OSDefault %s))" % emit_pstate_enc(enc, st)
+                else:
+                    state = "(Some (OSUser %s))" % enc.store(decode_user_state(getfmt, st, names))
+                d["state"] = repr(st)[:160]
+                d["state_kind"] = "default" if getfmt is None else f"user-{getfmt}"
+            except Exception as e:          # noqa: BLE001
+                d["state"] = f"raised {type(e).__name__}: {e}"[:120]
+            rts = []
+            ops = [("copy", copy.copy), ("deepcopy", copy.deepcopy)]
+            if picklable:
+                ops += [("pickle2", lambda o: pickle.loads(pickle.dumps(o, 2))),
+                        ("pickle5", lambda o: pickle.loads(pickle.dumps(o, 5)))]
+            if x is not x0 and len(ccalls) != 1:
+                ops = [o for o in ops if o[0] in ("copy", "pickle2")]      # all four only on two instances per class
+            for nm, op in ops:
+                try:
+                    y = op(x)
+                except Exception as e:          # noqa: BLE001
+                    rts.append(f"(RTRaise {_exc_kind(e)})")
+                    d[nm] = f"raised {type(e).__name__}: {e}"[:120]
+                else:
+                    if type(y) is not new:
+                        rts.append("(RTRaise SKOther)")
+                        d[nm] = f"result is a {type(y)!r}"
+                    else:
+                        ys, yd = storage(y)
+                        rts.append(f"(RTOk {enc.store(ys)} {enc.ostore(yd)})")
+                        d[nm] = repr((ys, yd))[:160]
+            obs = ("(COk {| io_slots := %s; io_dict := %s; io_eq := %s; io_lt := %s; io_hash := %s; io_repr := %s; "
+                   "io_state := %s; io_rts := %s |})") % (enc.store(sl), enc.ostore(dc), eq, lt, hs, rp, state,
+                                                          coq_list(rts, "rtobs"))
+            desc_calls.append(d)
+        ccalls.append("{| ic_pos := %s; ic_kw := %s; ic_obs := %s |}" % (
+            coq_list([enc(v) for v in pos], "obj"), enc.store(kw), obs))
+    fl = "{| fl_dict := %s; fl_weakref := %s |}" % (coq_bool(step["flags"]["dict"]), coq_bool(step["flags"]["weakref"]))
+    term = ("{| ik_flags := %s; ik_cls := %s; ik_kinds := %s; ik_bases := %s; ik_defaults := %s; ik_factories := %s; "
+            "ik_post := %s; ik_hookfmt := %d; ik_calls := %s |}") % (
+        fl, emit_cls(step["cls"]), coq_list(kinds, "ukind"), coq_list(bases, "dview"), enc.store(defaults),
+        enc.store(factories), enc.store(post), hookfmt, coq_list(ccalls, "icall"))
+    spec = prog[i]
+    desc = {"program": prog, "index": i, "class": new.__qualname__, "slots": list(getattr(new, "__slots__", ())),
+            "has_dict": new.__dictoffset__ != 0, "frozen": bool(new.__dataclass_params__.frozen),
+            "hooks_chain": [prog[j]["hooks"] for j in [i] + _ancestors(prog, i)],
+            "redeclares": bool(set(f["name"] for f in spec["fields"]) &
+                               {n for a in _ancestors(prog, i) for n in (f["name"] for f in prog[a]["fields"])}),
+            "factory": any(f["def"] == "factory" for f in spec["fields"]), "order": spec["order"],
+            "unsafe_hash": spec["unsafe_hash"], "eq": spec["eq"], "post_init": bool(post),
+            "slotted_base": any(isinstance(vars(b).get("__slots__"), tuple) for b in orig.__mro__[1:-1]),
+            "unslotted_base": any("__slots__" not in vars(b) for b in orig.__mro__[1:-1]),
+            "picklable": picklable, "calls": desc_calls}
+    return desc, term
+
+
+def emit_pstate_enc(enc, st):
+    if st is None:
+        return "SNone"
+    if isinstance(st, dict):
+        return f"(SDict {enc.store(st)})"
+    return "(SSeq %s)" % coq_list(["None" if p is None else f"(Some {enc.store(p)})" for p in st], "(option store)")
+
+
 INSTANCE_RNG = random.Random(0)
-INSTANCE_CASES = {"setstate": [], "getstate-law": []}
+INSTANCE_CASES = {"setstate": [], "getstate-law": [], "instance": []}
 
 # ----------------------------------------------------------------------------------
 # correspondence
@@ -402,10 +701,22 @@ def corr_steps(prog):
             raise exc
         INSTANCE_CASES["setstate"] += setstate_cases(INSTANCE_RNG, new)
         INSTANCE_CASES["getstate-law"] += getstate_cases(INSTANCE_RNG, new)
+        made.append((i, steps[-1], new))
         return new
 
+    made = []
     mod = run_program(prog, MOD_C, hook)
     invalid = [i for i in mod._err if i not in mod._plain]
+    # the instance layer looks at the finished module (pickle finds classes by qualified name)
+    for i, step, new in made:
+        if i >= 1000 or prog[i].get("reslot") or mod._c.get(i) is not new:
+            continue
+        try:
+            case = instance_case(prog, i, step, new, mod)
+        except Exception as e:          # noqa: BLE001
+            case = ({"program": prog, "index": i, "reflect_error": repr(e)[:300]}, None)
+        if case is not None:
+            INSTANCE_CASES["instance"].append(case)
     return steps, invalid
 
 
@@ -416,6 +727,8 @@ def corr_programs(run: lib.Run):
         progs.append(("corpus", p))
     for p in G.histories(run.budget(2, 3)):
         progs.append(("history", p))
+    for p in G.families():
+        progs.append(("family", p))
     for _ in range(run.budget(700, 9000)):
         p = G.gen_program(rng, 4, malformed=0.08)
         for s in p:
@@ -435,6 +748,30 @@ def load_corpus():
     return out
 
 
+
+_STR_LIT = None
+
+
+def share_strings(text: str) -> str:
+    """name every distinct string literal of a generated case file once (`Definition s<k>_ := "..."`) and refer to it
+    by name: a literal is 9 constructors per character for the type checker, and a few dozen attribute names make up
+    most of a case file (3x faster to compile; vm_compute unfolds the names)"""
+    global _STR_LIT
+    import re
+    if _STR_LIT is None:
+        _STR_LIT = re.compile(r'"(?:[^"]|"")*"%string')
+    tab = {}
+
+    def rep(m):
+        k = m.group(0)
+        if k not in tab:
+            tab[k] = f"s{len(tab)}_"
+        return tab[k]
+    at = text.index("Definition cases") if "Definition cases" in text else text.index("Eval ")
+    body = _STR_LIT.sub(rep, text[at:])
+    return text[:at] + "".join(f"Definition {v} : string := {k}.\n" for k, v in tab.items()) + body
+
+
 def eval_flat(run, layer, okfn, ctype, items, cap):
     """one flat list of cases per shard; returns mismatching descriptions"""
     items = items[:cap]
@@ -446,8 +783,8 @@ def eval_flat(run, layer, okfn, ctype, items, cap):
     for k in range(0, len(ok_idx), 500):
         idxs = ok_idx[k:k + 500]
         name = f"cases_{layer.replace('-', '_')}_{k // 500}.v"
-        files[name] = hdr + f"Definition cases : list {ctype} :=\n " + ";\n  ".join(
-            ["[ " + items[idxs[0]][1]] + [items[i][1] for i in idxs[1:]]) + " ].\nEval vm_compute in mismatches " + okfn + " cases.\n"
+        files[name] = share_strings(hdr + f"Definition cases : list {ctype} :=\n " + ";\n  ".join(
+            ["[ " + items[idxs[0]][1]] + [items[i][1] for i in idxs[1:]]) + " ].\nEval vm_compute in mismatches " + okfn + " cases.\n")
         maps[name] = idxs
     for name, r in run.coq_eval_many(files, timeout=900).items():
         if r is None:
@@ -462,6 +799,70 @@ def eval_flat(run, layer, okfn, ctype, items, cap):
         key = f"dict={int(d['has_dict'])},nslots={min(len(d['slotnames']), 4)}" + (f",{d['kind']}" if "kind" in d else "")
         dist[key] = dist.get(key, 0) + 1
     run.record_corr(layer, len(items), [items[i][0] for i in bad], distinct, dist)
+
+
+def eval_instances(run, cap):
+    """layer 'instance': SlottedEq.icase_ok on every reflected decorated dataclass"""
+    items = INSTANCE_CASES["instance"][:cap]
+    hdr = ("From Coq Require Import List String. Import ListNotations.\n"
+           "Require Import TL.Model.Slotted TL.Model.SlottedState TL.Model.SlottedInst TL.Model.SlottedEq.\n")
+    bad = [i for i, (_, c) in enumerate(items) if c is None]
+    ok_idx = [i for i, (_, c) in enumerate(items) if c is not None]
+    files, maps = {}, {}
+    shard = min(250, max(60, -(-len(ok_idx) // 12)))          # one wave of 12 parallel coqc runs when possible
+    for k in range(0, len(ok_idx), shard):
+        idxs = ok_idx[k:k + shard]
+        name = f"cases_instance_{k // shard}.v"
+        files[name] = share_strings(hdr + "Definition cases : list icase :=\n [ " + ";\n  ".join(items[i][1] for i in idxs) +
+                                    " ].\nEval vm_compute in mismatches icase_ok cases.\n")
+        maps[name] = idxs
+    for name, r in run.coq_eval_many(files, timeout=900).items():
+        if r is None:
+            run.oblige(f"evaluate:{name}", False, "model evaluation did not compile")
+            bad += maps[name]
+        else:
+            bad += [maps[name][j] for j in lib.parse_nat_list(r[-1])]
+    bad = sorted(set(bad))
+    dist = {"classes": len(items), "calls": 0, "constructed": 0, "raised": 0, "roundtrips": 0, "frozen": 0, "has_dict": 0,
+            "user_hooks": 0, "inherited_user_hooks": 0, "redeclared_field": 0, "default_factory": 0, "order": 0,
+            "unsafe_hash": 0, "eq_false": 0, "post_init": 0, "slotted_base": 0, "unslotted_base": 0, "picklable": 0,
+            "reflect_errors": 0}
+    for d, _ in items:
+        if "reflect_error" in d:
+            dist["reflect_errors"] += 1
+            continue
+        dist["calls"] += len(d["calls"])
+        dist["constructed"] += sum(1 for c in d["calls"] if "raised" not in c)
+        dist["raised"] += sum(1 for c in d["calls"] if "raised" in c)
+        dist["roundtrips"] += sum(1 for c in d["calls"] for k in ("copy", "deepcopy", "pickle2", "pickle5") if k in c)
+        dist["frozen"] += d["frozen"]
+        dist["has_dict"] += d["has_dict"]
+        dist["user_hooks"] += any(h != "none" for h in d["hooks_chain"])
+        dist["inherited_user_hooks"] += d["hooks_chain"][0] == "none" and any(h != "none" for h in d["hooks_chain"][1:])
+        dist["redeclared_field"] += d["redeclares"]
+        dist["default_factory"] += d["factory"]
+        dist["order"] += d["order"]
+        dist["unsafe_hash"] += d["unsafe_hash"]
+        dist["eq_false"] += not d["eq"]
+        dist["post_init"] += d["post_init"]
+        for c in d["calls"]:
+            for key in ("repr", "hash", "state_kind"):
+                if key in c:
+                    kk = f"{key}:{c[key].split(' ')[0].strip('()')}"
+                    dist[kk] = dist.get(kk, 0) + 1
+        dist["slotted_base"] += d["slotted_base"]
+        dist["unslotted_base"] += d["unslotted_base"]
+        dist["picklable"] += d["picklable"]
+    mism = [dict(items[i][0], python=G.program_source(items[i][0]["program"])) for i in bad[:12]]
+    if bad and any(items[i][1] is not None for i in bad[:3]):
+        txt = hdr + "".join("Eval vm_compute in ipredict %s.\n" % items[i][1] for i in bad[:3] if items[i][1] is not None)
+        r = run.coq_eval("diagnose_instance.v", txt)
+        if r:
+            for m, x in zip(mism, r):
+                m["model_predicts[(construct, (hash, repr, state, copy))]"] = x[:3000]
+    distinct = len({json.dumps([d.get("slots"), d.get("calls")], sort_keys=True, default=str) for d, _ in items})
+    run.record_corr("instance", len(items), mism + [{}] * max(0, len(bad) - len(mism)), distinct, dist)
+    run.corr["instance"]["mismatching_programs"] = [items[i][0]["program"] for i in bad[:40]]
 
 
 def correspond(run: lib.Run):
@@ -516,8 +917,8 @@ def correspond(run: lib.Run):
     for k in range(0, len(ok_idx), shard):
         idxs = ok_idx[k:k + shard]
         name = f"cases_slotted_{k // shard}.v"
-        files[name] = hdr + "Definition cases : list (list step) :=\n " + coq_list(
-            [coq[i] for i in idxs]).replace("]; [(", "];\n  [(") + ".\nEval vm_compute in mismatches case_ok cases.\n"
+        files[name] = share_strings(hdr + "Definition cases : list (list step) :=\n " + coq_list(
+            [coq[i] for i in idxs]).replace("]; [(", "];\n  [(") + ".\nEval vm_compute in mismatches case_ok cases.\n")
         maps[name] = idxs
     res = run.coq_eval_many(files, timeout=900)
     for name, r in res.items():
@@ -546,6 +947,7 @@ def correspond(run: lib.Run):
     cap = run.budget(2000, 12000)
     eval_flat(run, "setstate", "ss_case_ok", "ss_case", INSTANCE_CASES["setstate"], cap)
     eval_flat(run, "getstate-law", "gs_case_ok", "gs_case", INSTANCE_CASES["getstate-law"], cap)
+    eval_instances(run, run.budget(2500, 20000))
     run.laws["object.__getstate__ contract (getstate)"] = min(len(INSTANCE_CASES["getstate-law"]), cap)
     if cases:
         run.samples.append({"corr_sample": {"program": cases[-1]["program"], "steps": cases[-1]["steps"][:1]}})
@@ -705,6 +1107,10 @@ def behave(mod, cls, allow_extra=True):
         out["assign"] = _try(lambda: (setattr(x, f0, 123), repr(x))[1])
         y = make()
         out["delete"] = _try(lambda: (delattr(y, f0), "deleted")[1])     # a class-level default may show through: not compared
+    if p.frozen:
+        # frozen-ness beyond the fields: a name that is not a field cannot be assigned either
+        z = make()
+        out["assign_nonfield"] = _try(lambda: (setattr(z, "zz_new", 1), "assigned")[1])
     out["qualname"] = cls.__qualname__
     out["name"] = cls.__name__
     out["isinstance_bases"] = [k.__qualname__ for k in cls.__mro__[1:]]
@@ -850,6 +1256,8 @@ def check_program(prog):
         leaves = [x for k in diff for x in leaf_diffs(bo.get(k), bs.get(k), k)]
 
         def kind_of(path, sv):
+            if path.startswith("assign_nonfield") and "super(type, obj)" in json.dumps(sv, default=str):
+                return "frozen-nonfield"
             if "super(type, obj)" in json.dumps(sv, default=str):
                 return "super"
             if (base["feature_bare_dict_state"] and path.startswith("rt:") and isinstance(sv, list)
@@ -861,6 +1269,8 @@ def check_program(prog):
             # every difference is one of the two listed findings: one failure per finding, so that each is matched
             # by its own narrow entry (anything else falls through to the generic, unmatched failure below)
             for kd, sym, key in (("super", "zero-argument super() fails in a method of the slotted class", "zero-arg-super"),
+                                 ("frozen-nonfield", "assigning a name that is not a field to a frozen slotted instance raises "
+                                  "TypeError instead of FrozenInstanceError", "frozen-nonfield-setattr"),
                                  ("bare", "copy/pickle fails: the state of a field-less frozen slotted instance is its bare __dict__",
                                   "setstate-bare-dict-state")):
                 mine = [(p_, a_, b_) for p_, a_, b_ in leaves if kind_of(p_, b_) == kd]
@@ -930,6 +1340,8 @@ def search(run: lib.Run, broken):
     progs = list(load_corpus())
     if broken:
         progs += run.corr.get("slotted", {}).get("mismatching_programs", [])
+        progs += run.corr.get("instance", {}).get("mismatching_programs", [])
+    progs += G.families()
     progs += list(G.histories(2))          # length-3 histories are covered by the correspondence (thorough) and the theorem
     n = run.budget(500, 6000)
     if broken:
